@@ -1,14 +1,14 @@
---------------------------- MODULE Trace_Calling ---------------------------
-(* Trace validation for C01 and C02 (ops distinguish): one recorded call of the real code per record; verdicts are     *)
+--------------------------- MODULE Trace_Bins ---------------------------
+(* Trace validation for C12: one recorded call of the real code per record; verdicts are     *)
 (* carried as state (total verdicts) and read from the dump.                                 *)
-EXTENDS Calling, Json, IOUtils
+EXTENDS Bins, Json, IOUtils
 Trace == JsonDeserialize(IOEnv.TRACE_FILE)
 VARIABLES i, ph, failed, scope, triggers, drift, checked
 vars == <<i, ph, failed, scope, triggers, drift, checked>>
 Init == /\ i \in 1..Len(Trace) /\ ph = "call"
         /\ failed = {} /\ scope = TRUE /\ triggers = {} /\ drift = FALSE /\ checked = {}
 Next == /\ ph = "call" /\ ph' = "ret" /\ UNCHANGED i
-        /\ LET r == Decode(Trace[i]) IN
+        /\ LET r == Trace[i] IN
            /\ scope' = Premise(r)
            /\ checked' = IF scope' THEN Clauses(r.op) ELSE {}
            /\ failed' = {c \in checked' : ~Holds(c, r)}
